@@ -357,6 +357,23 @@ class Bounds:
                                 rb.lbs.add(('>=', rs))
                                 if lo0 is not None:
                                     rb.slo[rs] = lo0
+                                # clamp idiom `if (X > E) X = E` : the new value is smaller than the old one, so every upper bound of the
+                                # old X still holds (count = a - b ; if (count > len - indx) count = len - indx  =>  count <= a - b)
+                                if op == '=' and depth < MAXD - 2:
+                                    preds_ = cfg.preds.get(b, [])
+                                    if len(preds_) == 1 and j == min(start, len(elems) - 1) or (len(preds_) == 1 and all(not any(lv2 == X for (lv2, n2, op2, r2) in self.events[(b, jj)][0]) for jj in range(0, j))):
+                                        pb_ = preds_[0]
+                                        pbl_ = cfg.blocks[pb_]
+                                        if 'cond' in pbl_ and len(pbl_['succs']) == 2 and pbl_.get('tk') != 'SwitchStmt' and pbl_['succs'][0] != pbl_['succs'][1]:
+                                            pol_ = (pbl_['succs'][0] == b)
+                                            for (l_, op_, r_) in self.guard_facts(pbl_['cond'], pol_):
+                                                if r_ is not None and op_ in ('>', '>=') and self._lv_str(l_) == X and f.s(r_) == rs:
+                                                    prev = self.var(X, node, (pb_, len(pbl_['elems'])), depth + 1)
+                                                    if not prev.bot:
+                                                        if prev.hi is not None and (rb.hi is None or prev.hi < rb.hi):
+                                                            rb.hi = prev.hi
+                                                        rb.ubs |= {u for u in prev.ubs}
+                                                    break
                             results.append(rb)
                         elif op in ('post++', '++', '+=') and depth < MAXD:
                             # x++ : lower bound survives (no wrap assumed for the lower side only when type is wide)
@@ -802,6 +819,15 @@ class Bounds:
                 return inl.clamp_type(tr)
             if cal in self.summaries:
                 return self.summaries[cal](self, n, point, depth).clamp_type(tr)
+            if cal in ('psf_fread', 'psf_fwrite', 'fread', 'fwrite'):
+                # contract of the I/O primitives (C15 IO-RETURN decides it for psf_fread / psf_fwrite): 0 <= result <= items requested
+                args_ = f.args(n)
+                if len(args_) >= 3:
+                    ib = self._ev(args_[2], point, depth + 1)
+                    r_ = B(0, ib.hi if not ib.bot else None)
+                    if self._pure(f.N[args_[2]] if isinstance(args_[2], int) else args_[2]):
+                        r_.ubs.add(('<=', f.s(f.unwrap(args_[2]))))
+                    return r_.clamp_type(tr)
             if cal in ('strlen',):
                 return B(0, None).clamp_type(tr)
             if cal in ('abs', 'labs', 'llabs'):
